@@ -221,12 +221,15 @@ type failWriter struct {
 	calls  int
 	failAt int
 	short  bool
+	once   bool // transient fault: only the first Write that crosses the offset fails, later ones succeed
+	failed bool
 	buf    bytes.Buffer
 }
 
 func (w *failWriter) Write(p []byte) (int, error) {
 	w.calls++
-	if w.failAt >= 0 && w.buf.Len()+len(p) > w.failAt {
+	if w.failAt >= 0 && w.buf.Len()+len(p) > w.failAt && !(w.once && w.failed) {
+		w.failed = true
 		n := 0
 		if w.short {
 			n = w.failAt - w.buf.Len()
@@ -573,6 +576,11 @@ func c10Units(ctx *core.Ctx) []core.Unit {
 					if err := mp.IPA.Write(wi); err == nil {
 						vio(r, "c10.writeerror", "ipa.IPAProof.Write", desc, "an error", "nil")
 					}
+				}
+				// a transient fault (one failing call, the writer works again afterwards) is still a failed Write
+				wt := &failWriter{failAt: k, short: short, once: true}
+				if err := mp.Write(wt); err == nil {
+					vio(r, "c10.writeerror", "MultiProof.Write", desc+" once (transient fault)", "an error", "nil")
 				}
 				// a failed Write must not influence the next one
 				if k%64 == 5 {
